@@ -11,6 +11,7 @@ import (
 	"github.com/xelaj/mtproto/internal/encoding/tl"
 	"github.com/xelaj/mtproto/internal/mtproto/messages"
 	"github.com/xelaj/mtproto/internal/mtproto/objects"
+	"github.com/xelaj/mtproto/zverif/freepass"
 	"github.com/xelaj/mtproto/zverif/tlx"
 	"github.com/xelaj/mtproto/zverif/vr"
 )
@@ -26,6 +27,7 @@ func shapeClass(c tlx.Case) string {
 
 func main() {
 	run := vr.New("C01", "exploration")
+	freepass.MaybeReplay(run)
 	run.Rule("for every registered constructor: two base values (all fields non-zero / only mandatory fields) and every assignment with <=k field deviations over the shape alphabet (boundary ints/longs/doubles, string and bytes lengths {0..5,252..257,65535,65536}, vector sizes {nil,0,1,2,3}, 128/256-bit integers with leading zero bytes, every enum member, every implementer of every interface-typed field) plus the full zero/non-zero product of every shared flag-bit group; a case is non-trivial when it has at least one deviation and the encoder accepted it")
 	run.Assume("equality normalises only: nil and empty slice are the same vector, big integers compare by value, doubles bitwise")
 	k := 1
@@ -114,6 +116,7 @@ func main() {
 	run.Set("reverse_order_pass_cases", reverse)
 	run.Set("registered", map[string]int{"structs": structs, "enum_members": enums, "hand_written_other": other, "unbuildable": unbuildable})
 	run.Set("deviation_bound_k", k)
+	freepass.Run(run, run.ID, freepass.Rounds(run))
 	run.Finish()
 }
 
